@@ -405,3 +405,19 @@ Proof.
   - apply (IH i Ej). exact P.
   - apply (IH j Ej). apply path_step with i; assumption.
 Qed.
+
+(* the registry itself stays small: at most one entry per opcode of the pickle (it is emptied by every reset) *)
+Lemma step_mut_le1 : forall h t, length (step_mut h t) <= 1.
+Proof.
+  intros h [o a]. unfold step_mut. cbn [fst].
+  destruct o; cbn [length]; try lia;
+    repeat match goal with
+           | |- context [match ?x with _ => _ end] => destruct x; cbn [length]; try lia
+           end.
+Qed.
+
+Theorem run_mut_bound : forall v ts h, length (run_mut v h ts) <= length ts.
+Proof.
+  intros v ts. induction ts as [|t ts IH]; intro h; cbn [run_mut length]; [lia|].
+  rewrite app_length. pose proof (step_mut_le1 h t). specialize (IH (heap_step v h t)). lia.
+Qed.
